@@ -204,7 +204,7 @@ func runC07(c *ctx) {
 	c.Eval(-int64(len(small) + len(large))) // evaluations are counted when the workers report them
 
 	exe, _ := os.Executable()
-	work := filepath.Join(c.Root, "work", "C07")
+	work := filepath.Join(c.Root, "work", fmt.Sprintf("C07.%d", os.Getpid()))
 	os.RemoveAll(work)
 	os.MkdirAll(work, 0o755)
 	defer os.RemoveAll(work)
